@@ -1,4 +1,5 @@
 import I2N.Lemmas.Trav
+import I2N.Lemmas.TravLoc
 import I2N.Model.TravMon
 /-!
 # C08 — Tests run only on their own worker and are told where their setup lives
@@ -106,5 +107,62 @@ theorem named_sources_are_passers (g : Graph) (s : State) (p v : Nat) :
   · rintro ⟨r, hr, hp, h⟩
     refine ⟨r, hr, ?_⟩
     simp [hp, h]
+
+/-! ## the locations a test is told (`pull_locations`) -/
+
+/-- Completeness of `pull_locations`.  After `pullLocations g s n` of a parsed copy `n`, for every setup edge
+`(p, vms)` of `n`, every object `vm` of the edge and every location of the parent — the shared pool and the pool of
+every worker with a passing result of `p`'s class — the entry `get_location_<vm>` of `n` exists and contains the
+location (`strIn loc str`: Python's `loc in str`, the very test the code uses to avoid duplicates).
+`hn` says the copy has a dynamic record (true in every state the traversal reaches). -/
+theorem locations_complete (g : Graph) (s : State) (n : Nat) (hflat : (g.node n).flat = false)
+    (hn : n < s.nodes.length) (p : Nat) (vms : List String) (he : (p, vms) ∈ (g.node n).setup)
+    (vm : String) (hvm : vm ∈ vms)
+    (loc : String) (hloc : loc ∈ sharedLoc :: (sharedResultWorkerIds g s p).map (workerLoc g)) :
+    ∃ str, locOf ((pullLocations g s n).nd n).getLoc vm = some str ∧ strIn loc str = true :=
+  pullLocations_complete g s n hflat hn p vms he vm hvm loc hloc
+
+/-- Soundness of `pull_locations` (token form; no hypothesis on the worker ids needed).  Starting from no entries,
+the entry of `vm` is `joinLocs L` — the locations of `L` joined by single blanks in this order — for a non-empty
+list `L` each member of which is a location of a setup edge through `vm`: nothing else is ever listed.
+
+Partial: what is NOT true without a separation hypothesis on the worker ids is the converse in the token sense —
+a location may be missing from `L` because it is a substring of a location already listed (the duplicate test of
+the code is a substring test): see `location_swallowed_by_substring` below.  `locations_complete` gives the converse
+in the substring sense only. -/
+theorem locations_sound_partial (g : Graph) (s : State) (n : Nat) (hflat : (g.node n).flat = false)
+    (hn : n < s.nodes.length) (hempty : (s.nd n).getLoc = []) (vm str : String)
+    (h : locOf ((pullLocations g s n).nd n).getLoc vm = some str) :
+    ∃ L : List String, L ≠ [] ∧ str = joinLocs L ∧
+      ∀ l ∈ L, ∃ p vms, (p, vms) ∈ (g.node n).setup ∧ vm ∈ vms ∧
+        l ∈ sharedLoc :: (sharedResultWorkerIds g s p).map (workerLoc g) :=
+  pullLocations_sound g s n hflat hn hempty vm str h
+
+/-- two workers, one id a suffix of the other (what `nets=net1` over two clusters produces, finding F4); the parent
+`p = 0` has a passing result of either worker, the child `n = 1` depends on it through `vm1` -/
+def gSub : Graph :=
+  { workers := [{ id := "cluster1.net1", swarm := "cluster1" }, { id := "net1", swarm := "localhost" }],
+    nodes := [{ cls := 0, owner := some 0, name := "p.cluster1.net1", pfx := "1", cleanup := [(1, ["vm1"])] },
+              { cls := 1, owner := some 1, name := "n.net1", pfx := "2", setup := [(0, ["vm1"])] }],
+    root := 0 }
+
+def sSub : State :=
+  { nodes := [{ results := [{ name := "p.cluster1.net1", status := "PASS", uid := "1" },
+                            { name := "p.net1", status := "PASS", uid := "1r1" }] }, {}],
+    regs := [{}, {}], workers := [{}, {}], store := [] }
+
+/-- non-vacuity of `locations_complete` / `locations_sound_partial`, and the witness of what the substring test
+loses: both workers passed the parent, but the entry lists only the shared pool and `cluster1.net1`'s pool —
+`net1:/pool/swarm` is "already there" as a substring of `cluster1.net1:/pool/swarm`. -/
+theorem location_swallowed_by_substring :
+    sharedResultWorkerIds gSub sSub 0 = [0, 1] ∧
+    locOf ((pullLocations gSub sSub 1).nd 1).getLoc "vm1" = some ":/pool/shared cluster1.net1:/pool/swarm" ∧
+    joinLocs [sharedLoc, workerLoc gSub 0] = ":/pool/shared cluster1.net1:/pool/swarm" ∧
+    strIn (workerLoc gSub 1) ":/pool/shared cluster1.net1:/pool/swarm" = true := by decide
+
+example : ∃ str, locOf ((pullLocations gSub sSub 1).nd 1).getLoc "vm1" = some str ∧ strIn (workerLoc gSub 1) str = true :=
+  locations_complete gSub sSub 1 rfl (by decide) 0 ["vm1"] (by decide) "vm1" (by decide) _ (by decide)
+
+example := locations_sound_partial gSub sSub 1 rfl (by decide) rfl "vm1" _ location_swallowed_by_substring.2.1
 
 end I2N.Props.C08
